@@ -233,7 +233,7 @@ def make_programs(pid, tier, rng):
                 continue
             # (in the thorough tier the big sets are used everywhere, with a handful of queries per section: an iterator
             # over thousands of results is thousands of validated events of a state that holds thousands of strings)
-            lim = (6 if big else 200) if thorough else 24
+            lim = (6 if big else 24 if len(S) > 100 else 200) if thorough else 24
             rich = thorough or (pid == "C12")
             grid = G.param_grid(kind, S, rich and (small or thorough))
             if not thorough and pid != "C12":
